@@ -299,9 +299,10 @@ def run(ctx, replay=None):
     extras = extra_traces(ctx, T, setups, pairs, quick, sits)
     osel = others
     if quick:
-        osel = []
-        for rc, k in (('bc', 3), ('mempool', 3), ('pex', 3)):
-            l = [o for o in others if o[0] == rc]
+        # always: the block-response classes whose failure mode is a silent wedge of fast sync; plus a seeded sample
+        osel = [o for o in others if o[0] == 'bc' and o[1].startswith('response-')]
+        for rc, k in (('bc', 2), ('mempool', 3), ('pex', 3)):
+            l = [o for o in others if o[0] == rc and o not in osel]
             osel += ctx.rng.sample(l, min(k, len(l)))
     extras += [{'id': 'other-%s-%s' % (o[0], o[1]), 'cfg': {}, 'steps': [{'a': 'Other', 'args': list(o), 'post': {}}]} for o in osel]
     ctx.log('%d of %d pairs in %d traces + %d engine-made traces' % (len(chosen), len(pairs), len(traces), len(extras)))
